@@ -20,18 +20,19 @@ CONC_TOL = 1e-6
 # Propositions: symbolic (list of labelled z3 conjuncts) or concrete (lenient/strict booleans)
 # ----------------------------------------------------------------------------------------------
 class P:
-    __slots__ = ('sym', 'conj', 'len', 'strict', 'info')
+    __slots__ = ('sym', 'conj', 'len', 'strict', 'info', 'fv')
 
-    def __init__(self, sym, conj=None, lenient=None, strict=None, info=None):
+    def __init__(self, sym, conj=None, lenient=None, strict=None, info=None, fv=None):
         self.sym = sym
         self.conj = conj          # sym: list of (label, z3 Bool)
         self.len = lenient        # conc: holds within tolerance
         self.strict = strict      # conc: holds with margin
         self.info = info
+        self.fv = fv              # sym: truth value on the shadow samples (or None)
 
     @staticmethod
-    def s(term, label=''):
-        return P(True, [(label, term)])
+    def s(term, label='', fv=None):
+        return P(True, [(label, term)], fv=fv)
 
     @staticmethod
     def c(lenient, strict=None, info=None):
@@ -43,17 +44,17 @@ class P:
 
     def __and__(self, o):
         if self.sym:
-            return P(True, self.conj + o.conj)
+            return P(True, self.conj + o.conj, fv=None if self.fv is None or o.fv is None else (self.fv & o.fv))
         return P.c(self.len and o.len, self.strict and o.strict, (self.info, o.info))
 
     def __or__(self, o):
         if self.sym:
-            return P.s(z3.Or(self.term(), o.term()))
+            return P.s(z3.Or(self.term(), o.term()), fv=None if self.fv is None or o.fv is None else (self.fv | o.fv))
         return P.c(self.len or o.len, self.strict or o.strict, (self.info, o.info))
 
     def __invert__(self):
         if self.sym:
-            return P.s(z3.Not(self.term()))
+            return P.s(z3.Not(self.term()), fv=None if self.fv is None else ~self.fv)
         return P.c(not self.strict, not self.len, self.info)
 
     def implies(self, o):
@@ -137,7 +138,13 @@ class H:
                 CTX.domain.append(v > lift(lo) if lo_open else v >= lift(lo))
             if hi is not None:
                 CTX.domain.append(v < lift(hi) if hi_open else v <= lift(hi))
-            return SR(v)
+            a = -2.0 if lo is None else lo
+            b = 2.0 if hi is None else hi
+            if lo is not None and hi is None:
+                b = lo + 3.0
+            if hi is not None and lo is None:
+                a = hi - 3.0
+            return SR(v, None, None, core.SAMPLE_RNG.uniform(a, b, core.K_SAMPLES))
         return self._value(name, sampler)
 
     def vec(self, name, n, lo=None, hi=None):
@@ -156,6 +163,10 @@ class H:
         """n-vector with |v| = 1 (domain constraint); conc mode renormalises"""
         if self.sym:
             v = self.vec(name, n, -1, 1)
+            g = core.SAMPLE_RNG.standard_normal((n, core.K_SAMPLES))
+            g = g / _np.sqrt((g * g).sum(axis=0))
+            for i in range(n):
+                v[i].fv = g[i]
             s = 0.0
             for e in v:
                 s = s + e * e
@@ -186,6 +197,9 @@ class H:
             rh = min(rh, hi)
         if self.sym:
             x = trig.new_angle(name, rng, unit)
+            x.fv = core.SAMPLE_RNG.uniform(rl, rh, core.K_SAMPLES) * (1.0 if unit == 'rad' else math.pi / 180.0)
+            if unit != 'rad':
+                x.fv = x.fv * (180.0 / math.pi)
             CTX.inputs[name] = x.t
             if lo is not None:
                 CTX.domain.append(x.t >= lift(lo))
@@ -215,13 +229,13 @@ class H:
 
     def shape_is(self, a, shape):
         ok = tuple(_np.shape(a)) == tuple(shape)
-        return P.s(z3.BoolVal(ok), 'shape') if self.sym else P.c(ok, ok, f"shape {_np.shape(a)} vs {shape}")
+        return P.s(z3.BoolVal(ok), 'shape', _np.full(core.K_SAMPLES, ok)) if self.sym else P.c(ok, ok, f"shape {_np.shape(a)} vs {shape}")
 
     def true(self):
-        return P.s(z3.BoolVal(True)) if self.sym else P.c(True)
+        return P.s(z3.BoolVal(True), '', _np.ones(core.K_SAMPLES, dtype=bool)) if self.sym else P.c(True)
 
     def false(self):
-        return P.s(z3.BoolVal(False)) if self.sym else P.c(False)
+        return P.s(z3.BoolVal(False), '', _np.zeros(core.K_SAMPLES, dtype=bool)) if self.sym else P.c(False)
 
     def eq(self, a, b, tol=None):
         """a == b (element-wise conjunction). sym: exact unless tol given; conc: within tolerance"""
@@ -230,13 +244,16 @@ class H:
         pairs = self._pairs(a, b)
         if self.sym:
             conj = []
+            fv = _np.ones(core.K_SAMPLES, dtype=bool)
             for i, (x, y) in enumerate(pairs):
                 tx, ty = lift(x), lift(y)
                 if tol is None:
                     conj.append((str(i), tx == ty))
                 else:
                     conj.append((str(i), z3.And(tx - ty <= lift(tol), ty - tx <= lift(tol))))
-            return P(True, conj)
+                d = core._fop(lambda u, w: _np.abs(u - w) <= (1e-9 if tol is None else tol) * (1 + _np.abs(w)), x, y)
+                fv = None if (fv is None or d is None) else (fv & d)
+            return P(True, conj, fv=fv)
         t = self.tol if tol is None else max(tol, self.tol)
         worst = 0.0
         for x, y in pairs:
@@ -252,7 +269,11 @@ class H:
     def _cmp(self, a, b, op, strict_op):
         pairs = self._pairs(a, b)
         if self.sym:
-            return P(True, [(str(i), op(lift(x), lift(y))) for i, (x, y) in enumerate(pairs)])
+            fv = _np.ones(core.K_SAMPLES, dtype=bool)
+            for x, y in pairs:
+                d = core._fop(lambda u, w: op(u, w), x, y)
+                fv = None if (fv is None or d is None) else (fv & d)
+            return P(True, [(str(i), op(lift(x), lift(y))) for i, (x, y) in enumerate(pairs)], fv=fv)
         ok_l = all(strict_op(builtins.float(x), builtins.float(y), self.tol) for x, y in pairs)
         ok_s = all(strict_op(builtins.float(x), builtins.float(y), -self.tol) for x, y in pairs)
         return P.c(ok_l, ok_s)
@@ -320,6 +341,7 @@ class H:
         if self.sym:
             for _, t in p.conj:
                 CTX.domain.append(t)
+            core.mask_and(p.fv)
         elif not p.len:
             self.assume_failed.append((name, p.info))
 
@@ -336,7 +358,7 @@ class H:
         self.check('lemma: ' + name, p)
         if self.sym:
             for _, t in p.conj:
-                CTX.domain.append(t)
+                CTX.domain.append(t)        # a proven fact: does not restrict the samples
 
     def lemma_rotation(self, R):
         """R R^T = I and det R = 1 as certified facts, built with the term constructors the code's gates use"""
@@ -356,9 +378,11 @@ class H:
             c = core.choose(2, f'{tag}{i}')
             if c == 0:
                 CTX.domain.append(x.t >= 0)
+                core.mask_and(None if x.fv is None else x.fv >= 0)
                 out.append(1)
             else:
                 CTX.domain.append(x.t <= 0)
+                core.mask_and(None if x.fv is None else x.fv <= 0)
                 out.append(-1)
         return out
 
@@ -421,7 +445,7 @@ class Harness:
 REGISTRY = {}
 
 
-def harness(name, tiers=('quick', 'thorough'), max_paths=64, timeout_ms=2500, allowed_exc=(), functions=(), bounds='',
+def harness(name, tiers=('quick', 'thorough'), max_paths=64, timeout_ms=700, allowed_exc=(), functions=(), bounds='',
             stubs=(), escalate_s=None, kind='property', strata=None):
     def deco(fn):
         REGISTRY[name] = Harness(fn, name, tiers, max_paths, timeout_ms, allowed_exc, (fn.__doc__ or '').strip(),
